@@ -93,6 +93,7 @@ def function_obligations(contract, mode, size, label=None, extra_posts=None, val
                  call_models=contract.call_models(mode), ctx=ctx, fname=contract.func,
                  nf_arrays=contract.nf_arrays, modifies=contract.modifies(st, ctx))
     eng.classes = {cn: {m.name: m for m in cd.body if hasattr(m, 'name')} for cn, cd in mod.classes.items()}
+    eng.config = getattr(contract, 'config', 'fallback')
     # parameters with defaults that the contract did not bind
     names = [a.arg for a in fdef.args.args]
     for a_, d_ in zip(names[len(names) - len(fdef.args.defaults):], fdef.args.defaults):
